@@ -263,3 +263,28 @@ def add_select(ctx: C.Ctx, add, doc, cfg, in_domain: bool, base: Dict[str, Any],
                                    dict(base["case"], password=[ord(c) for c in pw]), want, got,
                                    {"kind": "crypt-filter-select", "attrs": kind}))
         add("select " + bit, got, ("select", dict(base, attrs=kind)))
+
+
+def table_7_6_5(v4plus: bool, em: bool, is_stream: bool, is_meta: bool, stmf: str, strf: str) -> str:
+    """ISO 32000-1 7.6.5 with Tables 20 and 25, no per-stream /Crypt override (Python twin of Spec.specSelect)."""
+    if not v4plus:
+        return "rc4"
+    if not is_stream:
+        return strf
+    if is_meta and not em:
+        return "identity"
+    return stmf
+
+
+def add_spec_select(ctx: C.Ctx, add) -> None:
+    ms = ["rc4", "aes128", "aes256", "identity"]
+    for v4 in (0, 1):
+        for em in (0, 1):
+            for st in (0, 1):
+                for me in (0, 1):
+                    for a in ms:
+                        for b in ms:
+                            ctx.branch("spec.select:" + ("v4+" if v4 else "v<4"))
+                            add("spec.select %d %d %d %d %s %s" % (v4, em, st, me, a, b),
+                                table_7_6_5(bool(v4), bool(em), bool(st), bool(me), a, b),
+                                ("twin-select", {"row": [v4, em, st, me, a, b]}))
